@@ -93,11 +93,17 @@ class Watchdog(BaseException):
 
 
 def load_known():
-    try:
-        with open(KNOWN_FILE) as f:
-            return json.load(f)
-    except FileNotFoundError:
-        return []
+    """known_findings.json plus known_findings.d/*.json (committed, hand edited,
+    never written at run time)."""
+    import glob
+    out = []
+    for fn in [KNOWN_FILE] + sorted(glob.glob(os.path.join(VERIF, "known_findings.d", "*.json"))):
+        try:
+            with open(fn) as f:
+                out.extend(json.load(f))
+        except FileNotFoundError:
+            pass
+    return out
 
 
 class Ctx(object):
